@@ -1770,20 +1770,10 @@ Qed.
 (** * 8. what is NOT proved (precise statements)                        *)
 (* ================================================================== *)
 
-(* lex_of_print_partial.
-   FULL STATEMENT (not proved):  forall ind p, lex_ok p -> lex_of_print ind p
-     i.e.  strip_lex (pp_stmts ind p) = Some (ptoks ind p ++ [tk_end])
-   for EVERY construct, where lex_ok asks that every symbol / parameter / converter name / let name is a
-   well-formed BAREWORD (Print_Lemmas.sym_ok), integers are non-negative and floats are parser floats
-   (Print.parser_float).  PROVED: lex_of_print_frag (the fragment of Print_Lemmas.frag_ok: literals without
-   floats, symbols, lists, tuples, groups, binary chains; all four statement kinds).  MISSING: the analogue of
-   Print_Lemmas.pp_toks for floats (finite_float_literal_ok gives the tokens of one literal), not/fail/TRACE/
-   convert/import/include (keyword_then_blank), copy, call (inline and block layout), cast, func, select,
-   map/filter/reduce, range (needs ':' added to Print_Lemmas.is_delim), format (strip_lex_quoted + " % "),
-   module (statements inside an expression: a mutual induction).  Every theorem below that assumes
-   [lex_of_print] holds for the whole language once this is proved: fmt_preserves_ast_of_tokens,
-   fmt_preserves_ast_raw, fmt_fixed_point_of_tokens.
-   CHECKED by extraction: T2 of ml/drv_parse.ml (mode rt) on generated and adversarial ASTs, 0 failures.
+(* lex_of_print_partial.  NOW PROVED for every construct in Parse_Lex.v:
+     lex_of_print_ok : lex_ok_prog p = true -> prog_ok ind p = true -> lex_of_print ind p
+   (lex_ok_prog: every symbol / parameter / converter, include and binding name is a well-formed BAREWORD,
+   floats are parser floats), hence fmt_preserves_ast_all and fmt_fixed_point_all there.
 
    fmt_preserves_ast_templates_partial.
    The parser keeps a template as raw text; sem/Ast.v stores it pre-parsed.  So for a program with format
